@@ -32,9 +32,9 @@ static int64_t convert(int type, int32_t x) {
     return 0;
 }
 
-struct Cfg { int core, chips; bool loud; bool play; int request; int type; unsigned container; int layout; /*0 planar c, 1 interleaved 2c, 2 interleaved 2c+3*/ long rate; int prefix = 0; /* size of an earlier plain opn2_generate/opn2_play call of the same history (0 = none) */ };
+struct Cfg { int core, chips; bool loud; bool play; int request; int type; unsigned container; int layout; /*0 planar c, 1 interleaved 2c, 2 interleaved 2c+3, 3 planar with stride 2c, 4 interleaved 2c with right before left*/ long rate; int prefix = 0; /* size of an earlier plain opn2_generate/opn2_play call of the same history (0 = none) */ };
 
-static std::string cfg_str(const Cfg &c, pl::Instance *I) { char b[240]; snprintf(b, sizeof b, "%s, %d chip(s), %s, %s(%d), %s/container %u, %s", I ? opn2_chipEmulatorName(I->dev) : "?", c.chips, c.loud ? "loud" : "quiet", c.play ? "opn2_playFormat" : "opn2_generateFormat", c.request, TN[c.type], c.container, c.layout == 0 ? "planar offset=c" : c.layout == 1 ? "interleaved offset=2c" : "interleaved offset=2c+3"); return b; }
+static std::string cfg_str(const Cfg &c, pl::Instance *I) { char b[240]; snprintf(b, sizeof b, "%s, %d chip(s), %s, %s(%d), %s/container %u, %s", I ? opn2_chipEmulatorName(I->dev) : "?", c.chips, c.loud ? "loud" : "quiet", c.play ? "opn2_playFormat" : "opn2_generateFormat", c.request, TN[c.type], c.container, c.layout == 0 ? "planar offset=c" : c.layout == 1 ? "interleaved offset=2c" : c.layout == 2 ? "interleaved offset=2c+3" : c.layout == 3 ? "two separate buffers, offset=2c" : "interleaved offset=2c, right before left"); return b; }
 
 static bool make(pl::Instance &I, const Cfg &c) {
     I.create(c.rate); OPN2_MIDIPlayer *d = I.dev;
@@ -49,6 +49,8 @@ struct Bufs { std::vector<uint8_t> mem; uint8_t *left, *right; size_t span; };
 static void layout_bufs(Bufs &B, const Cfg &c, int frames_cap, uint8_t poison, unsigned &offset) {
     const size_t G = 64;
     if(c.layout == 0) { offset = c.container; B.span = (size_t)frames_cap * offset; B.mem.assign(G + B.span + G + B.span + G, poison); B.left = B.mem.data() + G; B.right = B.left + B.span + G; }
+    else if(c.layout == 3) { offset = 2 * c.container; B.span = (size_t)frames_cap * offset; B.mem.assign(G + B.span + G + B.span + G, poison); B.left = B.mem.data() + G; B.right = B.left + B.span + G; }   // padded planar: two separate buffers, each with the stride of a packed stereo frame
+    else if(c.layout == 4) { offset = 2 * c.container; B.span = (size_t)frames_cap * offset; B.mem.assign(G + B.span + G, poison); B.right = B.mem.data() + G; B.left = B.right + c.container; }            // interleaved with the channels swapped
     else { offset = c.layout == 1 ? 2 * c.container : 2 * c.container + 3; B.span = (size_t)frames_cap * offset; B.mem.assign(G + B.span + G, poison); B.left = B.mem.data() + G; B.right = B.left + c.container; }
 }
 
@@ -131,8 +133,8 @@ int main(int argc, char **argv) {
     std::vector<en::Family> fams;
     int ncores = thorough ? 8 : 8;
     { static const unsigned CONT[] = {1, 2, 4, 8};
-      en::Family F; F.name = "format_matrix"; F.count = (uint64_t)ncores * 10 * 4 * 3 * 2 * 2 * 2; F.chunk = 4; F.budget_s = 120; F.describe = "8 emulator cores x 10 sample types x container {1,2,4,8} x layout {planar offset c, interleaved 2c, interleaved 2c+3} x chips {1,3} x {quiet, loud (all chip channels at full level)} x {generate, play}; request 1026 samples (crosses the 512-frame period) at 22050 Hz";
-      F.run = [](uint64_t i, en::CaseOut &o) { Cfg c; uint64_t r = i; c.core = CORES[r % 8]; r /= 8; c.type = (int)(r % 10); r /= 10; c.container = CONT[r % 4]; r /= 4; c.layout = (int)(r % 3); r /= 3; c.chips = (r % 2) ? 3 : 1; r /= 2; c.loud = r % 2; r /= 2; c.play = r % 2; c.request = 1026; c.rate = 22050;
+      en::Family F; F.name = "format_matrix"; F.count = (uint64_t)ncores * 10 * 4 * 5 * 2 * 2 * 2; F.chunk = 4; F.budget_s = 120; F.describe = "8 emulator cores x 10 sample types x container {1,2,4,8} x layout {planar offset c, interleaved 2c, interleaved 2c+3, two separate buffers with stride 2c, interleaved 2c with right before left} x chips {1,3} x {quiet, loud (all chip channels at full level)} x {generate, play}; request 1026 samples (crosses the 512-frame period) at 22050 Hz";
+      F.run = [](uint64_t i, en::CaseOut &o) { Cfg c; uint64_t r = i; c.core = CORES[r % 8]; r /= 8; c.type = (int)(r % 10); r /= 10; c.container = CONT[r % 4]; r /= 4; c.layout = (int)(r % 5); r /= 5; c.chips = (r % 2) ? 3 : 1; r /= 2; c.loud = r % 2; r /= 2; c.play = r % 2; c.request = 1026; c.rate = 22050;
         if(i % 211 == 0) o.sample = cfg_str(c, NULL); run_case(c, o); };
       fams.push_back(F); }
     { static const int SIZES[] = {-4, -3, -2, -1, 0, 1, 2, 3, 1022, 1023, 1024, 1025, 1026, 2048, 69999, 70000};
